@@ -144,9 +144,15 @@ func (db *DB) Compact() (CompactionResult, error) {
 		db.maintenanceMu.Unlock()
 	}()
 
-	db.mu.RLock()
+	// Seal the picked segments in the same critical section as the pick. A delete record appended to
+	// a picked segment after the pick would be dropped by the compaction while the put it deletes
+	// may live on in an older segment that wasn't picked, and come back after a recovery.
+	db.mu.Lock()
 	segments := db.pickForCompaction()
-	db.mu.RUnlock()
+	for _, seg := range segments {
+		seg.meta.Full = true
+	}
+	db.mu.Unlock()
 
 	for _, seg := range segments {
 		segcr, err := db.compact(seg)
